@@ -40,6 +40,19 @@ def index(s):
     return x
 
 
+def own(result):
+    """what a call returns belongs to the caller: keep a copy for the comparison and overwrite the returned object in place,
+    so that a library that hands out (or keeps) a reference to internal or cached state is exposed by a later call"""
+    if isinstance(result, np.ndarray):
+        keep = result.copy()
+        if result.flags.writeable:
+            result[...] = -1
+        return keep
+    keep = list(result)
+    result[:] = [-1] * len(result)
+    return keep
+
+
 def payloads(rng, tier):
     kmax = {"quick": 5, "thorough": 7, "search": 4}[tier]
     for k in range(1, kmax + 1):
@@ -56,6 +69,7 @@ def payloads(rng, tier):
                 yield s, {"k": k, "v": v}
     for k in range(1, {"quick": 5, "thorough": 6, "search": 3}[tier] + 1):
         yield "complete", {"k": k}
+        yield "complete", {"k": k, "again": 1}
     # complete accessors of higher order: checked against the vectorised shift formula (no model call: 4^k rows)
     for k in range(6, {"quick": 10, "thorough": 11, "search": 8}[tier] + 1):
         yield "complete_big", {"k": k}
@@ -72,7 +86,7 @@ def build(stream, p):
     km = kmer(v, k)
     if stream == "complete_big":
         def run_big():
-            a = dsw.get_complete_accessor(observed_length=k)
+            a = own(dsw.get_complete_accessor(observed_length=k))
             n = 4 ** k
             rows = np.arange(n, dtype=np.int64).reshape(-1, 1)
             want = (4 * rows + np.arange(4, dtype=np.int64).reshape(1, -1)) % n
@@ -113,11 +127,11 @@ def build(stream, p):
                     nontrivial=k >= 2, tags=["k=%d" % k])
     if stream == "latters":
         call = enc_call(13, v, k)
-        impl = lambda: guard(lambda: dsw.obtain_latters(current=v, observed_length=k), lambda r: [[int(x) for x in r]])
+        impl = lambda: guard(lambda: own(dsw.obtain_latters(current=v, observed_length=k)), lambda r: [[int(x) for x in r]])
         want = [index(km[1:] + c) for c in NUC]
     elif stream == "formers":
         call = enc_call(14, v, k)
-        impl = lambda: guard(lambda: dsw.obtain_formers(current=v, observed_length=k), lambda r: [[int(x) for x in r]])
+        impl = lambda: guard(lambda: own(dsw.obtain_formers(current=v, observed_length=k)), lambda r: [[int(x) for x in r]])
         want = [index(c + km[:-1]) for c in NUC]
     elif stream == "n2d":
         call = enc_call(12, v, k)
@@ -129,7 +143,7 @@ def build(stream, p):
         want = v
     else:
         call = enc_call(15, k)
-        impl = lambda: guard(lambda: dsw.get_complete_accessor(observed_length=k), lambda r: [[int(x) for x in r.reshape(-1)]])
+        impl = lambda: guard(lambda: own(dsw.get_complete_accessor(observed_length=k)), lambda r: [[int(x) for x in r.reshape(-1)]])
         want = None
 
     def oracle(ans, raw):
